@@ -630,6 +630,9 @@ func (db *DB) rollbackJournal(ctx context.Context) error {
 		} else if err != nil {
 			return fmt.Errorf("next segment(%d): %w", i, err)
 		}
+		if db.pageSize == 0 {
+			db.pageSize = r.pageSize // learned from the journal header
+		}
 		if err := db.rollbackJournalSegment(ctx, r, dbFile); err != nil {
 			return fmt.Errorf("segment(%d): %w", i, err)
 		}
@@ -3655,6 +3658,18 @@ func (r *JournalReader) Next() (err error) {
 
 	// After the first segment, we require the magic bytes.
 	if r.offset > 0 && !bytes.Equal(hdr[:8], []byte(SQLITE_JOURNAL_HEADER_STRING)) {
+		return io.EOF
+	}
+
+	// If the database's page size is not known yet (e.g. empty database file),
+	// use the page size from the first journal header. If that is not available
+	// either then there are no pages that could be restored.
+	if r.pageSize == 0 && r.offset == 0 {
+		if pageSize := binary.BigEndian.Uint32(hdr[24:]); ltx.IsValidPageSize(pageSize) {
+			r.pageSize = pageSize
+		}
+	}
+	if r.pageSize == 0 {
 		return io.EOF
 	}
 
